@@ -4,6 +4,7 @@ pub mod c19;
 pub mod child;
 pub mod egprops;
 pub mod meta;
+pub mod c02;
 pub mod c05;
 pub mod c07;
 pub mod c10;
@@ -14,6 +15,7 @@ pub mod c17;
 pub fn run(prop: &str, ctx: &Ctx) -> Option<Report> {
     Some(match prop {
         "C01" => egprops::run_c01(ctx),
+        "C02" => c02::run(ctx),
         "C03" => meta::run_c03(ctx),
         "C04" => egprops::run_c04(ctx),
         "C06" => meta::run_c06(ctx),
